@@ -13,9 +13,9 @@ use super::ir_sexp::{args_to_sexp, data_view, ir_to_sexp};
 use super::query_gen::{GenQuery, QueryKnobs, gen_query};
 use super::run::{args_error_names, compile, real_args};
 use super::schema_gen::{GenSchema, SchemaKnobs, gen_schema};
-use crate::framework::Tier;
-use crate::rng::Rng;
-use crate::sexp::{Sexp, hex};
+use tfharness::framework::Tier;
+use tfharness::rng::Rng;
+use tfharness::sexp::{Sexp, hex};
 
 #[derive(Debug, Clone)]
 pub struct WorldKnobs {
@@ -134,16 +134,19 @@ impl GenStats {
 /// Compile one generated query against the real schema and validate its arguments.
 pub fn compile_query(schema: &GenSchema, real: &Schema, gq: GenQuery) -> WorldQuery {
     // the frontend has known panics of its own (C10's business): count them as rejections here
-    let compiled = crate::framework::guarded(|| compile(real, &gq.text)).unwrap_or_else(|_| Err(vec!["PANIC".to_string()]));
+    let compiled = tfharness::framework::guarded(|| compile(real, &gq.text)).unwrap_or_else(|_| Err(vec!["PANIC".to_string()]));
     match compiled {
         Err(names) => WorldQuery { gq, compiled: Err(Rejection::Frontend(names)), ir: None },
         Ok(iq) => {
             let ir = Some(ir_to_sexp(&iq.ir_query));
             // argument validation happens before the adapter is touched
             let probe = Arc::new(TableAdapter::new(schema, DataTable::default()));
-            let compiled = match interpret_ir(probe, iq.clone(), real_args(&gq.args)) {
-                Ok(_) => Ok(iq),
-                Err(e) => Err(Rejection::Args(args_error_names(&e))),
+            // (a panic while the pipeline is being built — e.g. an invalid regex argument, F-4 — comes
+            // after validation: the arguments were accepted)
+            let probed = tfharness::framework::guarded(|| interpret_ir(probe, iq.clone(), real_args(&gq.args)).map(|_| ()));
+            let compiled = match probed {
+                Ok(Err(e)) => Err(Rejection::Args(args_error_names(&e))),
+                Ok(Ok(())) | Err(_) => Ok(iq),
             };
             WorldQuery { gq, compiled, ir }
         }
